@@ -385,6 +385,48 @@ func (Keeper).OnTimeoutPacket
     modifies bank_bal, bank_supply, evm_state, tp_has, am_has, dm_has
     call ConvertCoinToERC20FromPacket requires same: data == old(data) && bank_bal == old(bank_bal) && bank_supply == old(bank_supply) && evm_state == old(evm_state)
     ensures propagated: result == ret(ConvertCoinToERC20FromPacket, 1, 0)
+// C10 (automatic conversion on IBC receive ... or fails without effect): when the conversion of the received coins fails - possibly
+// after it has already escrowed them - the packet must be acknowledged with an error, so that ibc-go discards the state of the
+// receive; a success acknowledgement is only passed on when no conversion was attempted or the conversion succeeded
+alias ChanAck github.com/cosmos/ibc-go/v7/modules/core/04-channel/types.Acknowledgement
+alias ChanPacket github.com/cosmos/ibc-go/v7/modules/core/04-channel/types.Packet
+alias FTData github.com/cosmos/ibc-go/v7/modules/apps/transfer/types.FungibleTokenPacketData
+uf is_error_ack(a ChanAck) bool
+func github.com/cosmos/ibc-go/v7/modules/core/04-channel/types.NewErrorAcknowledgement
+    params err
+    ensures is_error_ack(result)
+// packet decoding helpers of ibc-go / haqq/ibc: functions of the packet (assumed); the received coin's denomination is an IBC
+// voucher ("ibc/<hash>") or a native denomination, never a 0x-address
+uf ft_decode(b []uint8) FTData
+uf ft_recipient(p ChanPacket) []uint8
+uf ft_coin(sp string, sc string, dp string, dc string, denom string, amount string) Coin
+func (github.com/cosmos/ibc-go/v7/modules/core/04-channel/types.Packet).GetData
+    params p
+    pure
+    def p.Data
+func (*github.com/cosmos/cosmos-sdk/codec.ProtoCodec).UnmarshalJSON
+    params cdc, bz, ptr
+    requires ftdata: typeis(ptr, *FTData)
+    modifies *cast(ptr, *FTData)
+    ensures result == nil ==> *cast(ptr, *FTData) == ft_decode(bz)
+func github.com/haqq-network/haqq/ibc.GetTransferSenderRecipient
+    params packet
+    ensures result.4 == nil ==> result.1 == ft_recipient(packet)
+func github.com/haqq-network/haqq/ibc.GetReceivedCoin
+    pure as ft_coin
+axiom pure_ft_coin: forall sp string, sc string, dp string, dc string, d string, a string :: !is_hex_address(ft_coin(sp, sc, dp, dc, d, a).Denom)
+func (Keeper).OnRecvPacket
+    let D = ft_decode(packet.Data)
+    let C = ft_coin(packet.SourcePort, packet.SourceChannel, packet.DestinationPort, packet.DestinationChannel, ft_decode(packet.Data).Denom, ft_decode(packet.Data).Amount)
+    // the ICS-20 transfer module has already credited the received coins to the recipient when this middleware runs
+    requires credited: bank_bal[acc_of_bytes(ft_recipient(packet))][C.Denom] > 0
+    requires denom_index: forall dd string :: dm_has[dd] && tp_has[dm_val[dd]] ==> tp_val[dm_val[dd]].Denom == dd
+    modifies bank_bal, bank_supply, evm_state, tp_has, am_has, dm_has
+    call ConvertCoin requires untouched: bank_bal == old(bank_bal) && bank_supply == old(bank_supply) && evm_state == old(evm_state)
+    // no success acknowledgement after a failed conversion that left something behind: either nothing changed, or the conversion
+    // succeeded, or the packet is acknowledged with an error (ret(ConvertCoin, ..) is unconstrained on the paths without the call,
+    // where the first disjunct holds)
+    ensures c10_failed_conversion: bank_bal == old(bank_bal) && bank_supply == old(bank_supply) && evm_state == old(evm_state) || ret(ConvertCoin, 1, 1) == nil || (isdyn(result, ChanAck) && is_error_ack(dyn(result, ChanAck)))
 func (Keeper).OnAcknowledgementPacket
     params k, ctx, packet, data, ack
     requires denom_index: forall dd string :: dm_has[dd] && tp_has[dm_val[dd]] ==> tp_val[dm_val[dd]].Denom == dd
